@@ -172,6 +172,7 @@ func sumTypeSwitchesOn(c *Ctx, rule string, target types.Type, ifaceName string,
 
 // switches that are partial by design: one named symbol with its reason
 var partialSwitchOK = map[string]string{
+	"types.*V2Transaction.DeepCopy":         "only resolution kinds that own memory are cloned; an expiration is a zero-size value",
 	"types.SpendPolicy.deepCopy":            "only the kinds that own reference memory (threshold children, unlock-condition keys) need cloning; the others are plain values",
 	"types.V2TransactionSemantics.EncodeTo": "normalisation step only (strips signatures / the history proof from the kinds that carry them); every kind is then encoded by the resolution's own EncodeTo",
 }
